@@ -22,12 +22,12 @@ def IsInt32 (i : Int) : Prop := -2147483648 ≤ i ∧ i < 2147483648
 
 /-- errno values the sequence containers set; `ok` = errno left as it was -/
 inductive Errno where
-  | ok | EINVAL | ENOBUFS | ERANGE | ENOENT | ENOMEM | EAGAIN
+  | ok | EINVAL | ENOBUFS | ERANGE | ENOENT | ENOMEM | EAGAIN | EIO
   deriving DecidableEq, Repr, Inhabited
 
 def Errno.name : Errno → String
   | .ok => "0" | .EINVAL => "EINVAL" | .ENOBUFS => "ENOBUFS" | .ERANGE => "ERANGE"
-  | .ENOENT => "ENOENT" | .ENOMEM => "ENOMEM" | .EAGAIN => "EOTHER"
+  | .ENOENT => "ENOENT" | .ENOMEM => "ENOMEM" | .EAGAIN => "EOTHER" | .EIO => "EIO"
 
 /-- result of the bool-returning calls: (return value, errno set by the call) -/
 abbrev BoolRes := Bool × Errno
